@@ -127,6 +127,18 @@ partial def encTree : Tree → String
   | .text s => s!"(t {encStr s})"
   | .comment s => s!"(c {encStr s})"
 
+/-- prefix encoding of an input tree: d/f <n> kids | y name pub sys | e ns name attrs <n> kids | t s | c s -/
+partial def tree : R Tree := do
+  let k ← word
+  match k with
+  | "d" => do let cs ← list tree; pure (.doc cs)
+  | "f" => do let cs ← list tree; pure (.frag cs)
+  | "y" => do let n ← ostr; let p ← ostr; let s ← ostr; pure (.doctype n p s)
+  | "e" => do let ns ← ostr; let n ← str; let a ← list attr; let cs ← list tree; pure (.elem ns n a cs)
+  | "t" => do let s ← str; pure (.text s)
+  | "c" => do let s ← str; pure (.comment s)
+  | _ => failure
+
 /-- run a reader on a whole line's words; all words must be consumed -/
 def run (p : R α) (ws : List String) : Option α :=
   match p ws with
